@@ -19,6 +19,8 @@ RULE = (
     'below a task with work requested. Distinct = SHA-1 of case JSON.'
     ' Part faults also lets db.targets() fail once while the farm handles a'
     ' reply; algorithms may read back their own output. '
+    ' The faults part may also let the journal write fail once while a repl'
+    'y is handled. '
 )
 ASSUMPTIONS = [
     'liveness is bounded: workers always answer; drain bound '
